@@ -53,7 +53,7 @@ class FileObj:
         # unbuffered model: every write may already be visible
         self.fs.files[self.path] = self.fs.files.get(self.path, '') + s
         self.fs.snap(('write', self.path))
-        return len(s)
+        return 0
 
     def read(self):
         return self.fs.files[self.path]
